@@ -222,6 +222,27 @@ def index_in_range(ctx, prog):
                           "current_client_index is written with a value not bounded by clients.len() (allowed: 0, `% clients.len()`, gen_range(0..clients.len())): current_client() becomes None, every member skips its turn and the group's messages are never forwarded",
                           site=body.loc(st.get("sp")))
     ctx.floor(rule, "writes of SharedGroup.current_client_index", n, 3)
+    # after members were removed the index is re-bounded whenever somebody is left: the only way round the
+    # `% clients.len()` in remove_client is the "no client left" edge
+    rc = prog.one(r"^router::shared_subs::SharedGroup::remove_client$")
+    from .c15 import switch_on_call_result
+    rebound = [bi for b_, bi, st in field_writes(prog, "current_client_index") if b_.id == rc.id and st["rv"]["k"] == "bin" and st["rv"]["op"] == "Rem"]
+    shrink = [bb for bb, t in rc.calls() if re.search(r"Vec::<T, A>::(retain|retain_mut|remove|swap_remove|drain|truncate)$", callee_path(t)) and not rc.is_cleanup(bb)]
+    empty_edges = [(e[0], e[1]) for e in switch_on_call_result(rc, r"Vec::<T, A>::is_empty$")]
+    is_len_ = lambda ss: any(x.kind == "call" and x.path.endswith("Vec::<T, A>::len") for x in ss)
+    is_k = lambda v: (lambda ss: any(x.kind == "const" and x.v == v for x in ss))
+    for sbb, holds, fails, _ in cmp_switches(rc, ("Eq",), is_len_, is_k(0)):
+        empty_edges.append((sbb, holds))
+    for sbb, holds, fails, _ in cmp_switches(rc, ("Gt",), is_len_, is_k(0)) + cmp_switches(rc, ("Ge",), is_len_, is_k(1)):
+        empty_edges.append((sbb, fails))
+    if not rebound or not shrink:
+        ctx.anchor_missing(rule, "remove_client: shrinking call / re-bounding write not found (%d/%d)" % (len(shrink), len(rebound)))
+    elif reachable_after(rc, shrink, avoid_blocks=tuple(rebound), avoid_edges=empty_edges) & set(return_blocks(rc)):
+        ctx.violation(rule, rc.id, "index not re-bounded after a member left",
+                      "remove_client can return with members left and current_client_index unchanged (the `% clients.len()` is skipped on an edge other than \"no client left\"): after a two-member group shrinks the index can point past the list, current_client() is None and the remaining member never gets its turn",
+                      site=rc.fn_loc())
+    else:
+        ctx.ok(rule, rc.id, "after a removal the index is re-bounded on every path that leaves at least one member", site=rc.fn_loc())
     cc = prog.one(r"^router::shared_subs::SharedGroup::current_client$")
     gets = [t for bb, t in cc.calls() if callee_path(t).endswith("::get") and not cc.is_cleanup(bb)]
     if gets and all(any(getattr(x, "fields", None) and x.fields[-1] == "current_client_index" for x in flatten_src(provenance(cc, t["args"][1]))) for t in gets):
